@@ -672,11 +672,13 @@ class FuncGraph:
     def st_Break(self, s, env):
         if self._loops:
             self._loops[-1].breaks.append(dict(env))
+        self.event('break', self.nondet(s, 'break'), s)          # recorded with its guards: which conditions end the loop early
         return ('term', FALL)
 
     def st_Continue(self, s, env):
         if self._loops:
             self._loops[-1].continues.append(dict(env))
+        self.event('continue', self.nondet(s, 'continue'), s)
         return ('term', FALL)
 
     def st_With(self, s, env):
